@@ -22,6 +22,13 @@ def run(tier, seed):
     run_fragments(rep, optable.OPTABLE + [core.LongestC(), bind.ApplyC(), core.ChoiceC()], tier,
                   only_cfg=lambda c, cfg: len(cfg.get('flags', [])) <= 3)
     optable.CreateC().obligations(rep, tier)
+    # "reading the operands and operators of the resulting tree in order reproduces the occurrences consumed": the generic readers
+    # (traverse, visit, _asdict, repr) go by _fields - which must list operand / operator / operand in input order
+    wiring.operator_node_classes(rep, tier)
+    # operators and operands of a row may be any expression (a multi-token operator is a sequence): the table relies on the static flags
+    # of whatever it is given - the flag clauses of the core classes, re-run here
+    run_fragments(rep, core.CORE, tier, clause_filter=lambda name: any(t in name for t in ('G-as', 'G-cps', 'G-flags')),
+                  only_cfg=lambda c, cfg: len(cfg.get('flags', [])) <= 2)
     # tables with many rows of one kind combine them by Longest of that arity: proved for every arity by segment induction
     segments.LongestSegments().run(rep, tier)
     segments.ChoiceSegments().run(rep, tier)
